@@ -24,8 +24,8 @@ says that nothing of the language is left out.  The statements below quantify ov
 × the contexts of `contexts`; the correspondence runs the same families (and four more contexts) on
 `recognize_boolean`.
 
-What is a SAMPLE and what is universal: `no_match_nothing` (neutral clause) and `score_unit_interval` hold for every
-text / every token list; `neutral_nothing_sample` is a pool of 21 strings; the pair statements are exhaustive over the
+What is a SAMPLE and what is universal: `no_match_nothing` (neutral clause), `reported_score_unit_interval` and
+`score_unit_interval` hold for every text / every token list; `neutral_nothing_sample` is a pool of 21 strings; the pair statements are exhaustive over the
 alternatives but fix the separators they name.
 
 History: before /repo commits 863060d4d and a65f410e1 the rewrite destroyed the surrogate-pair / 4-digit escapes
@@ -38,10 +38,10 @@ open RTV.Choice RTV.Re RTV.Py
 
 /-- C20 (affirmative / negative): every listed alternative — word, emoji, emoji + skin-tone modifier — in lower /
 UPPER / Title case, alone or inside each of the contexts, yields exactly one entity — spanning exactly that
-expression, with its own polarity (and the parser's default score). -/
+expression, with its own polarity, and a score in `[0, 1]`. -/
 theorem alts_polarity (b : Bool) : ∀ w ∈ alts b, ∀ v ∈ variants w, ∀ c ∈ contexts,
-    recognise genEnv (c.1 ++ v ++ c.2) =
-      some [⟨c.1.length, (c.1.length : Int) + v.length - 1, v, b, Score.zero⟩] := by
+    ∃ sc, recognise genEnv (c.1 ++ v ++ c.2) = some [⟨c.1.length, (c.1.length : Int) + v.length - 1, v, b, sc⟩] ∧
+      InUnit sc := by
   intro w hw v hv c hc
   have h : polarityOK genEnv b = true := by
     rw [← fastEnv_eq]; cases b
@@ -49,7 +49,9 @@ theorem alts_polarity (b : Bool) : ∀ w ∈ alts b, ∀ v ∈ variants w, ∀ c
     · exact polarity_true_fast
   unfold polarityOK polarityOn at h
   have := List.all_eq_true.1 (List.all_eq_true.1 (List.all_eq_true.1 h w hw) v hv) c hc
-  simpa [expected] using this
+  obtain ⟨sc, h1, h2⟩ := isExpected_spec _ _ _ _ this
+  simp only [inUnit, Bool.and_eq_true, decide_eq_true_eq] at h2
+  exact ⟨sc, h1, h2.1.1, h2.1.2, h2.2⟩
 
 /-- the enumeration is the resource's list: the words, the emoji (👍 U+1F44D, 👌 U+1F44C; 👎 U+1F44E, ✋ U+270B,
 🖐 U+1F590), and each emoji followed by each skin-tone modifier U+1F3FB … U+1F3FF (10 + 15 sequences) -/
@@ -98,7 +100,7 @@ theorem neutral_nothing_sample : ∀ q ∈ neutralPool, noMatch genEnv q = true 
 
 /-- C20 (both polarities, words and bare emoji): for every affirmative `t`, negative `f` and separator (blank;
 comma + blank), in both orders, exactly one entity is reported, its text is a listed expression of the polarity it
-reports, and its span is where that text stands. -/
+reports, its span is where that text stands, and its score lies in `[0, 1]` (`oneListed`). -/
 theorem both_polarities_one_entity : ∀ t ∈ altsCore true, ∀ f ∈ altsCore false, ∀ sp ∈ seps,
     oneListed (t ++ sp ++ f) (recognise genEnv (t ++ sp ++ f)) = true ∧
     oneListed (f ++ sp ++ t) (recognise genEnv (f ++ sp ++ t)) = true := by
@@ -122,26 +124,39 @@ theorem both_polarities_one_entity_all : ∀ t ∈ alts true, ∀ f ∈ alts fal
   have := both_all genEnv h1 h2 t ht f hf
   simpa [bothPair] using this
 
-/-- C20 (score, model of the parser — holds BY THE SHAPE OF THE CODE, not a computation): whatever is reported carries
-the default score of the `ChoiceExtractDataResult` that `ChoiceParser.parse` builds anew (`parserScore`), i.e. `0.0` —
-inside `[0, 1]` — for every environment and every query.  The tie to the code is the correspondence (`bool.rec`
-compares the reported score with `resolution['score']` on every pipeline query); the statement about the score
-COMPUTATION is `score_unit_interval`. -/
-theorem reported_score_is_parser_default (E : Env) (q : Str) (rs : List MR) (h : recognise E q = some rs) :
-    ∀ r ∈ rs, r.score = Score.zero := by
+/-- C20 (score, UNIVERSAL — every query): whatever `recognize_boolean` reports carries a score in `[0, 1]`.  Now that
+`ChoiceParser.parse` hands on the extractor's own `top_score` (the maximum of `match_value` over the start positions),
+this is a statement about the score COMPUTATION: `score_unit_interval` lifted through `top_score`, the partial results,
+the sort, the top-match selection and the parser.  It also holds for the code before that fix (the constructor default
+`0.0`, `genEnvPreFix3`). -/
+theorem reported_score_unit_interval (q : Str) (rs : List MR) :
+    (recognise genEnv q = some rs → ∀ r ∈ rs, InUnit r.score) ∧
+    (recognise genEnvPreFix3 q = some rs → ∀ r ∈ rs, InUnit r.score) :=
+  ⟨recognise_unit genEnv rfl q rs, recognise_unit genEnvPreFix3 rfl q rs⟩
+
+/-- … and for EVERY environment in which `index_of` answers `-1` on a miss (any regexes, any tables) -/
+theorem reported_score_unit_interval_any (E : Env) (hm : E.missIndex = -1) (q : Str) (rs : List MR)
+    (h : recognise E q = some rs) : ∀ r ∈ rs, InUnit r.score := recognise_unit E hm q rs h
+
+/-- REGRESSION (before `boolean-score-from-extractor.diff`, holds by the shape of that code): the parser built a new
+`ChoiceExtractDataResult` and reported its default score `0.0`, whatever the extractor had computed -/
+theorem prefix_reported_score_is_parser_default (E : Env) (hk : E.parserKeepsScore = false) (q : Str) (rs : List MR)
+    (h : recognise E q = some rs) : ∀ r ∈ rs, r.score = Score.zero := by
   unfold recognise at h
   cases he : extract E q with
   | none =>
-    simp [he] at h
-    obtain ⟨_, rfl⟩ := h
-    intro r hr; simp at hr
+    simp only [he] at h
+    split at h
+    · injection h with h; subst h; intro r hr; simp at hr
+    · simp at h
   | some ers =>
-    simp [he] at h
+    simp only [he] at h
+    injection h with h
     subst h
     intro r hr
-    simp at hr
-    obtain ⟨e, _, rfl⟩ := hr
-    rfl
+    obtain ⟨e, _, rfl⟩ := List.mem_map.1 hr
+    show parserScore E e = Score.zero
+    unfold parserScore; rw [hk]; rfl
 
 /-- C20 (score, extractor): `match_value` lies in `[0, 1]` for **all** token lists and every start position `≥ 0`
 (`0 ≤ 0.4 + 0.6·x ≤ 1` for the rational `x` the code computes; no ZeroDivisionError) — now that
@@ -191,7 +206,7 @@ theorem prefix_matchValue_can_exceed_one :
 `match_value`, which `ChoiceModel.parse` turned into an UnboundLocalError; now it is the entity `not ok`. -/
 theorem prefix_not_ok_not_sure_raised :
     recognise genEnvPreFix2 (ofString "not ok not sure") = none ∧
-    recognise genEnv (ofString "not ok not sure") = some [⟨0, 5, ofString "not ok", false, Score.zero⟩] := by
+    recognise genEnv (ofString "not ok not sure") = some [⟨0, 5, ofString "not ok", false, ⟨112, 160⟩⟩] := by
   rw [← fastEnv_eq, ← fastEnvPreFix2_eq]; decide +kernel
 
 
@@ -206,7 +221,7 @@ theorem prefix_rewrite_loses_thumbs_up :
 `nobody said no` was placed on the `no` of `nobody`; with the match's own offset it is at `[12, 13]`. -/
 theorem prefix_first_occurrence_span :
     recognise genEnvPreFix (ofString "nobody said no") = some [⟨0, 1, ofString "no", false, Score.zero⟩] ∧
-    recognise genEnv (ofString "nobody said no") = some [⟨12, 13, ofString "no", false, Score.zero⟩] := by
+    recognise genEnv (ofString "nobody said no") = some [⟨12, 13, ofString "no", false, ⟨18, 30⟩⟩] := by
   rw [← fastEnv_eq, ← fastEnvPreFix_eq]; decide +kernel
 
 end RTV.C20
